@@ -62,6 +62,13 @@ func (w *ServiceMonitor) Watch(updates chan string) {
 	}
 }
 
+// instanceID identifies a service instance within the cluster. Node names
+// and service ids may both contain dots, so the parts are quoted to tell
+// node "a" with service "b.c" from node "a.b" with service "c".
+func instanceID(node, serviceID string) string {
+	return fmt.Sprintf("%q.%q", node, serviceID)
+}
+
 // makeConfig determines which service instances have passing health checks
 // and then finds the ones which have tags with the right prefix to build the config from.
 func (w *ServiceMonitor) makeConfig(checks []*api.HealthCheck) string {
@@ -71,7 +78,7 @@ func (w *ServiceMonitor) makeConfig(checks []*api.HealthCheck) string {
 		// Make the node part of the id, because according to the Consul docs
 		// the ServiceID is unique per agent but not cluster wide
 		// https://www.consul.io/api/agent/service.html#id
-		name, id := check.ServiceName, fmt.Sprintf("%s.%s", check.Node, check.ServiceID)
+		name, id := check.ServiceName, instanceID(check.Node, check.ServiceID)
 
 		if _, ok := m[name]; !ok {
 			m[name] = map[string]bool{}
@@ -126,7 +133,7 @@ func (w *ServiceMonitor) serviceConfig(name string, passing map[string]bool) (co
 
 	for _, svc := range svcs {
 		// check if this instance passed the health check
-		if _, ok := passing[svc.Node+"."+svc.ServiceID]; !ok {
+		if _, ok := passing[instanceID(svc.Node, svc.ServiceID)]; !ok {
 			continue
 		}
 
